@@ -724,6 +724,13 @@ func Run(c *core.Ctx) int {
 				for _, v := range undefinedFamily[pos.Kind] {
 					cases = append(cases, Case{Example: ex.name, Position: pos, Value: v})
 				}
+				// undefined values derived from the defined one in place: a defined
+				// extension key with an extra sub-key component, doubled, or prefixed
+				if pos.Kind == "extkey" && pos.Key != "" {
+					for _, v := range []string{pos.Key + "+zz-not-defined", pos.Key + "+x+y", "zz-" + pos.Key} {
+						cases = append(cases, Case{Example: ex.name, Position: pos, Value: v})
+					}
+				}
 				for _, v := range p.defined(pos) {
 					definedCases = append(definedCases, Case{Example: ex.name, Position: pos, Value: v, Defined: true})
 				}
